@@ -435,6 +435,16 @@ impl ProcfsHandle {
                 }
                 return Ok(file);
             }
+            // The kernel renders the target of a magic-link with d_path() into
+            // a single page, and fails with ENAMETOOLONG if it does not fit
+            // (a file at a path of 4086 bytes that has since been unlinked is
+            // enough: " (deleted)" gets appended). Only magic-links have
+            // targets like that -- the ordinary symlinks of procfs are short
+            // and never fail this way -- and following the link does not need
+            // the text. Treat it like any other absolute target.
+            Err(err) if err.kind() == ErrorKind::OsError(Some(libc::ENAMETOOLONG)) => {
+                PathBuf::from("/")
+            }
             // Any other error says nothing about what the target is. Falling
             // back to an O_NOFOLLOW open here would, after a transient failure
             // (EMFILE, ENOMEM, ...), hand the caller the symlink itself.
